@@ -497,7 +497,10 @@ impl Check for C01 {
         // with an honest seeder present the download must still complete
         let fr = file_report(v);
         let last = v.out.entries.last().map(|e| e.seq).unwrap_or(0);
-        if fr.pieces_stored < t.pieces() {
+        if fr.pieces_stored < t.pieces() && v.plan.disk_full_from.is_some() {
+            vd.probe("disk_full_run");
+            vd.inconclusive = Some("disk full: the download cannot complete".into());
+        } else if fr.pieces_stored < t.pieces() {
             let stuck: Vec<usize> = tw
                 .corrupt_completions
                 .iter()
